@@ -2,6 +2,8 @@ import einx._src.tracer as tracer
 import numpy as np
 from collections import defaultdict
 import itertools
+import keyword
+import builtins
 from einx._src.util import pytree
 
 
@@ -593,12 +595,17 @@ def compile(object, return_code=False):
     # Assign names to variables
     variableid_to_name = {}
 
+    # Generated names must not shadow Python keywords, builtins or the names that are assigned via hints (e.g. import aliases)
+    reserved_names = set(keyword.kwlist) | set(dir(builtins)) | {name for names in name_hints.values() for name in names}
+
     def names():
         chars = [chr(i) for i in range(ord("a"), ord("z") + 1)]
         length = 1
         while True:
             for name in itertools.product(chars, repeat=length):
-                yield "".join(name)
+                name = "".join(name)
+                if name not in reserved_names:
+                    yield name
             length += 1
 
     names = names()
